@@ -50,7 +50,7 @@ def run(tier, seed):
         unsat += info["unsat"]
     files = [o for (_, o, _), i in zip(jobs, infos) if "error" not in i]
     vlib.linear_check(rep, SPEC, CFG, DIAG, files, wd)
-    rep.cov.update({"systems": sat + unsat, "satisfiable": sat, "unsatisfiable": unsat, "solver_runs": 5 * (sat + unsat)})
+    rep.cov.update({"systems": sat + unsat, "satisfiable": sat, "unsatisfiable": unsat, "solver_runs": 7 * (sat + unsat)})
     rep.cov["evaluations"] = sat + unsat
     rep.cov["distinct_nontrivial"] = sat + unsat
     rep.cov["rule"] = ("seeded random systems of 1..10 variables, ranges inside [-16,47] biased to the window edges and to ranks 1..6, parity flags incl. "
